@@ -31,6 +31,13 @@ CHECKS = {
             'checked for every split point of every C01 path.',
             'Literal alphabet as listed in the check; arithmetic steps, dunder names, non-finite floats outside; wildcard steps on S/A roots are not evaluated (structure only).',
             '3/C18'),
+    'C14': ('model_checking',
+            'exhaustive enumeration of all reachable rooted object graphs (trees, DAGs, cycles) of bounded size x wildcard paths, executed on the real glom against a breadth-first reference walk',
+            'All 6882 reachable child-list structures over 3 containers + 2 leaves (<=2 ordered children each, chosen among all nodes) under 6 kind assignments '
+            '(thorough: all 64, plus 4-container graphs) x 39 wildcard paths in text / Path / T spelling; nested-list shape and entry identity compared with a reference '
+            'that expands every container once; per-case time limit decides termination. Assign/Delete through wildcards on tree targets against a plain loop.',
+            'Children as read in DESIGN.md 3/C14; sets and raising containers only in a fixed side menu; tuple-only cycles cannot be built.',
+            '3/C14'),
 }
 
 NOT_YET = {}
